@@ -11,7 +11,7 @@ Run order (see vlib.py): regenerate facts (StackEffects, PanicKinds, emitSetP sh
   corr3  every executed instruction's real (pc, sp) effect vs the regenerated table
 Violations are shrunk (token ddmin), classified into a signature, and reported through ctx.violation.
 """
-import binascii, json, os, re, subprocess, sys, time, hashlib
+import binascii, json, os, re, shutil, subprocess, sys, time, hashlib
 from vlib import *
 
 HEX = lambda s: binascii.hexlify(s.encode("utf8", "surrogateescape")).decode()
@@ -395,38 +395,70 @@ def shrink(src, fails, budget_s=20):
     return "".join(toks)
 
 
-def signature(kind, detail, small, still_fails, compiles=lambda s: True):
-    """canonical class of a minimised failing source"""
-    if kind == "compiler-bug-diagnostic" and "Unknown expression type: *ast.PrivateIdentifier" in detail:
-        return "C01:compiler-bug-diagnostic:bare-private-identifier-expression"
-    # optional call with spread arguments: removing the `?.` before `(` removes the failure
-    if "?." in small and "(" in small:
-        # optional chain around a call: making the chain non-optional removes the failure
-        alt = re.sub(r"\?\.\s*\(", "(", small)
-        alt = re.sub(r"\?\.\s*\[", "[", alt)
-        alt = re.sub(r"\?\.(?=[A-Za-z_$#])", ".", alt)
-        if not still_fails(alt):
-            return "C01:stack-leak-or-crash:optional-call-short-circuit"
+def generic_signature(kind, detail, small):
+    """class of a minimised failing source that no known finding accounts for"""
     if kind == "compiler-bug-diagnostic":
         m = re.search(r"(Compiler bug|BUG): (.*?)( at .*)?$", detail or "")
         if m:
             return "C01:compiler-bug-diagnostic:" + re.sub(r"[^A-Za-z.*]+", "-", re.sub(r"\d+", "N", m.group(2))).strip("-")[:70]
-    # write to the own name of a sloppy named function expression (=, op=, ++, for-in/of target) with the value discarded:
-    # making that function strict (the write then throws instead of being ignored) removes the failure, and the strict
-    # variant still compiles (otherwise the test is inconclusive)
-    for m in re.finditer(r"function\s*\*?\s*([A-Za-z_$][\w$]*)\s*\([^)]*\)\s*\{", small):
-        name = m.group(1)
-        if not re.search(r"(?<![\w$.])%s\s*(=(?!=)|\+\+|--|[-+*/%%&|^]=|<<=|>>=|>>>=|\*\*=|&&=|\|\|=|\?\?=|\s+in\b|\s+of\b)|(\+\+|--)\s*%s(?![\w$])"
-                         % (re.escape(name), re.escape(name)), small):
-            continue
-        alt = small[:m.end()] + '"use strict";' + small[m.end():]
-        if still_fails(alt) is False and compiles(alt):
-            return "C01:stack-leak-or-crash:assignment-to-sloppy-function-expression-name-value-discarded"
-    # Go runtime panics whose root cause is not isolated yet are keyed by panic site + message shape (digits erased)
     m = re.search(r"runtime\.\w+: (.*?) @(.*)$", detail or "")
     if kind == "panic-in-run" and m:
         return "C01:panic-in-run:%s@%s" % (re.sub(r"\d+", "N", m.group(1)).replace(" ", "-")[:60], m.group(2)[:60])
     return "C01:%s:%s" % (kind, hashlib.sha1(small.encode("utf8", "replace")).hexdigest()[:12])
+
+
+# ---- attribution of a failure to a known (unrepaired) finding: by repair, not by appearance.
+# Each `known` entry of known_findings.d/C01.json names the patch that repairs its root cause ("patch": "fixes/….diff").
+# A failing program is attributed to the finding iff it no longer fails on an engine built from the tree under test PLUS
+# exactly that patch. A program that fails for any other reason still fails there, so nothing can be masked.
+def tree_stamp(repo):
+    h = hashlib.sha1()
+    for dp, dns, fns in os.walk(repo):
+        dns[:] = sorted(d for d in dns if d != ".git")
+        for fn in sorted(fns):
+            if fn.endswith(".go") or fn in ("go.mod", "go.sum"):
+                p = os.path.join(dp, fn)
+                st = os.stat(p)
+                h.update(("%s %d %d\n" % (os.path.relpath(p, repo), st.st_size, int(st.st_mtime))).encode())
+    return h.hexdigest()[:16]
+
+
+def build_alt(ctx, patch_rel):
+    """harness binary for REPO + patch, or None when the patch does not apply (e.g. already merged)"""
+    patch = os.path.join(ROOT, patch_rel)
+    if not os.path.exists(patch):
+        return None
+    key = hashlib.sha1((os.path.abspath(REPO) + "|" + patch_rel).encode()).hexdigest()[:10]
+    d = os.path.join(BUILD, "c01_alt_" + key)
+    out = os.path.join(BUILD, "harness_c01_alt_" + key)
+    stamp = tree_stamp(REPO) + hashlib.sha1(open(patch, "rb").read()).hexdigest()[:8] + \
+        hashlib.sha1(open(os.path.join(ROOT, "harness", "cmd", "c01", "main.go"), "rb").read() +
+                     open(os.path.join(ROOT, "harness", "cmd", "c01", "gen.go"), "rb").read()).hexdigest()[:8]
+    sf = out + ".stamp"
+    if os.path.exists(out) and os.path.exists(sf) and open(sf).read() == stamp:
+        return out
+    if os.path.exists(sf) and open(sf).read() == stamp + " inapplicable":
+        return None
+    shutil.rmtree(d, ignore_errors=True)
+    shutil.copytree(REPO, d, ignore=shutil.ignore_patterns(".git"), symlinks=True)
+    # NB: not `git apply` — inside /verif (a git repository) it silently skips paths outside the index
+    rc, o, e = sh(["patch", "-p1", "-N", "-s", "--dry-run", "-i", patch], cwd=d, timeout=120)
+    if rc == 0:
+        rc, o, e = sh(["patch", "-p1", "-N", "-s", "-i", patch], cwd=d, timeout=120)
+    if rc != 0:
+        open(sf, "w").write(stamp + " inapplicable")
+        return None
+    hdir = os.path.join(ROOT, "harness")
+    alt = os.path.join(BUILD, "c01_alt_%s.mod" % key)
+    mod = open(os.path.join(hdir, "go.mod")).read().replace("=> /repo", "=> " + d)
+    open(alt, "w").write(mod)
+    shutil.copyfile(os.path.join(REPO, "go.sum"), alt[:-4] + ".sum")
+    rc, o, e = sh(["go", "build", "-tags", "verif", "-modfile=" + alt, "-o", out, "./cmd/c01"], cwd=hdir, env=GOENV, timeout=1800)
+    if rc != 0:
+        ctx.log("alt build failed for", patch_rel, (o + e)[-300:])
+        return None
+    open(sf, "w").write(stamp)
+    return out
 
 
 # ------------------------------------------------------------------ main
@@ -451,7 +483,7 @@ def main(ctx):
         # Tie theorems are obligations of kind tie
         ctx.audit_tie = None
         for t in ["modelOps_agree", "tie_new", "tie_rdupN", "tie_dupLast", "tie_concatStrings", "new_instance", "jumps_agree",
-                  "dyn_covered", "exceptionFromValue_cases", "asUncatchable_cases", "recover_sites"]:
+                  "dyn_covered", "emitSetP_pops", "exceptionFromValue_cases", "asUncatchable_cases", "recover_sites"]:
             ctx.obligation("tie:" + t, "tie", True, "checked by lake build GojaModel.C01.Tie")
     else:
         ctx.obligation("tie:GojaModel.C01.Tie", "tie", not any("Tie.lean" in e["file"] or "Generated" in e["file"] for e in errs),
@@ -486,11 +518,40 @@ def main(ctx):
                 bad.append((i, a))
         return bad
 
-    def fails_any(src):
+    def fails_any(src):  # (kept for replay tooling)
         r = run_src(src)
         if r.get("violation"):
             return True
         return bool(verify_units((r.get("units") or [])))
+
+    alts = {}   # signature -> Proc of the harness built with that finding's patch (lazily), or None
+
+    def alt_for(entry):
+        sg = entry["signature"]
+        if sg not in alts:
+            b = build_alt(ctx, entry["patch"]) if entry.get("patch") else None
+            alts[sg] = Proc([b]) if b else None
+        return alts[sg]
+
+    def attribute(src):
+        """signature of the known finding whose patch makes `src` pass completely, else None"""
+        for entry in ctx.known:
+            if entry.get("status") != "known" or not entry.get("patch"):
+                continue
+            A = alt_for(entry)
+            if A is None:
+                continue
+            out = A.ask("run " + HEX(src))
+            try:
+                r = json.loads(out)
+            except ValueError:
+                continue
+            if r.get("violation"):
+                continue
+            if verify_units(r.get("units") or []):
+                continue
+            return entry["signature"]
+        return None
 
     def report(src, kind, detail, origin):
         # eval placement: continue with the evaluated text itself when it fails the same way on its own
@@ -511,10 +572,15 @@ def main(ctx):
             if kind == "verify-reject":
                 return bool(verify_units((r.get("units") or [])))
             return False
-        small = shrink(src, same, budget_s=12 if quick else 30)
-        if not small.strip() or not same(small):
-            small = src
-        sig = signature(kind, detail, small, fails_any, lambda s: run_src(s).get("outcome") not in ("syntax", ""))
+        sig, small = None, src
+        hit = attribute(src)
+        if hit is not None:
+            sig = hit          # repaired by a known finding's patch: no need to minimise again
+        else:
+            small = shrink(src, same, budget_s=12 if quick else 40)
+            if not small.strip() or not same(small):
+                small = src
+            sig = attribute(small) or generic_signature(kind, detail, small)
         r = run_src(small)
         st = ctx.violation(sig, "%s (%s): %s" % (kind, origin, small[:160].replace("\n", " ")),
                            {"kind": "program", "source": small, "original_source": src[:4000], "violation": kind, "detail": detail,
@@ -602,9 +668,9 @@ def main(ctx):
     ctx.obligation("corr:classifier(exhaustive over %d payload kinds)" % len(kinds), "correspondence", not cl_bad and have_model, str(cl_bad))
 
     # ---------------------------------------------------------------- search + corr2 + corr3
-    nsh = 14
+    nsh = max(2, min(14, (os.cpu_count() or 4) - 2))
     total = 20000 if quick else 4000000
-    secs = 22 if quick else 660
+    secs = 4.0 if quick else 150.0        # CPU seconds per shard (the harness measures its own CPU time: load tolerant)
     sdir = os.path.join(BUILD, "c01_search")
     os.makedirs(sdir, exist_ok=True)
     for fn in os.listdir(sdir):
@@ -643,6 +709,7 @@ def main(ctx):
             for k, v in src_d.items():
                 d[k] = d.get(k, 0) + v
     ctx.count(agg["programs"])
+    ctx.stats["search_cpu_seconds"] = round(sum(x.get("cpu_seconds", 0) for x in sums), 1)
     ctx.stats["search"] = dict(agg, classes=classes, outcomes=dict(sorted(outcomes.items(), key=lambda x: -x[1])[:30]), shards=len(sums))
     for s in sums[:1]:
         for x in s.get("samples", [])[:2]:
@@ -736,6 +803,9 @@ def main(ctx):
         ctx.obligation("corr:executed-instruction-effects-match-table(%d instruction types)" % len(names3), "correspondence",
                        not bad3 and len(names3) > 60, "; ".join(bad3[:6]) or "ok")
     H.close()
+    for A in alts.values():
+        if A:
+            A.close()
     if M:
         M.close()
     ctx.stats["lean_theorems"] = names
